@@ -49,7 +49,14 @@ var shapes = []shape{
 	{`^c10\.(d[0-9])\.h[0-9]+\.([a-z]+)$`, `agg.$2.by.$1.x`, func(dc, host, metric, name string) string { return "agg." + metric + ".by." + dc + ".x" }, "$2 and $1 swapped"},
 	{`^(c10\.d[0-9]\.h[0-9]+\.[a-z]+)$`, `$1`, func(dc, host, metric, name string) string { return name }, "identity: one output name per input name"},
 	{`^c10\.(d[0-9])\.(h[0-9]+)\.[a-z]+$`, `agg.${1}_${2}.r`, func(dc, host, metric, name string) string { return "agg." + dc + "_" + host + ".r" }, "${1}_${2}: braces next to literals"},
+	// long output names whose lengths sit on and next to allocator size classes (32, 33, 48, 64 bytes)
+	{`^c10\.(d[0-9])\.h[0-9]+\.[a-z]+$`, `agg.$1.` + pad(25), func(dc, host, metric, name string) string { return "agg." + dc + "." + pad(25) }, "32-byte output name"},
+	{`^c10\.(d[0-9])\.h[0-9]+\.[a-z]+$`, `agg.$1.` + pad(26), func(dc, host, metric, name string) string { return "agg." + dc + "." + pad(26) }, "33-byte output name"},
+	{`^c10\.(d[0-9])\.h[0-9]+\.[a-z]+$`, `agg.$1.` + pad(41), func(dc, host, metric, name string) string { return "agg." + dc + "." + pad(41) }, "48-byte output name"},
+	{`^c10\.(d[0-9])\.h[0-9]+\.[a-z]+$`, `agg.$1.` + pad(57), func(dc, host, metric, name string) string { return "agg." + dc + "." + pad(57) }, "64-byte output name"},
 }
+
+func pad(n int) string { return strings.Repeat("requests_total_", n/15+1)[:n] }
 
 // optional filters, each with the predicate it documents
 type filt struct {
@@ -467,8 +474,12 @@ func runHistory(res *mon.Result, h History, st *stats) {
 	}
 
 	// drain the output channel into an ordered log; a nil slice is the harness' own sentinel
+	// The slices themselves are retained too, as a route or destination would retain them, and compared
+	// again when the lines are harvested: an emitted line must not change after it was handed over.
 	var mu sync.Mutex
 	var logLines []string
+	var rawLines [][]byte
+	altered := ""
 	ack := make(chan struct{})
 	go func() {
 		for b := range out {
@@ -478,6 +489,7 @@ func runHistory(res *mon.Result, h History, st *stats) {
 			}
 			mu.Lock()
 			logLines = append(logLines, string(b))
+			rawLines = append(rawLines, b)
 			mu.Unlock()
 		}
 	}()
@@ -486,7 +498,13 @@ func runHistory(res *mon.Result, h History, st *stats) {
 		<-ack
 		mu.Lock()
 		l := logLines
+		for i, b := range rawLines {
+			if string(b) != l[i] && altered == "" {
+				altered = fmt.Sprintf("line %q, as handed to the consumer, later read %q", l[i], b)
+			}
+		}
 		logLines = nil
+		rawLines = nil
 		mu.Unlock()
 		return l
 	}
@@ -599,6 +617,12 @@ func runHistory(res *mon.Result, h History, st *stats) {
 		}
 	}
 	close(out)
+	mu.Lock()
+	alt := altered
+	mu.Unlock()
+	if alt != "" {
+		viol("emitted-line-altered", "an output line changed after it had been handed to the consumer: "+alt)
+	}
 	if got := d.Get(kIn); got != int64(matching) {
 		viol("in-count", fmt.Sprintf("history handed over %d matching points, direction=in.aggregator=%s moved by %d", matching, agg.Key, got))
 	}
